@@ -347,6 +347,44 @@ class _NormalForm(ast.NodeTransformer):
         return node
 
 
+class _InlineReturn(ast.NodeTransformer):
+    """x = EXPR; return x   ->   return EXPR     (adjacent statements, x a plain local): rules that look at what a
+    function returns see the expression whether or not it went through a temporary."""
+
+    def _scoped(self, fn):
+        declared = set()
+        for n in ast.walk(fn):
+            if isinstance(n, (ast.Global, ast.Nonlocal)):
+                declared.update(n.names)
+        return declared
+
+    def visit_FunctionDef(self, node):
+        declared = self._scoped(node)
+        self._blocks(node, declared)
+        self.generic_visit(node)
+        return node
+
+    visit_AsyncFunctionDef = visit_FunctionDef
+
+    def _blocks(self, fn, declared):
+        for n in ast.walk(fn):
+            for field in ('body', 'orelse', 'finalbody'):
+                block = getattr(n, field, None)
+                if not (isinstance(block, list) and block and isinstance(block[0], ast.stmt)):
+                    continue
+                i = 0
+                while i + 1 < len(block):
+                    a, b = block[i], block[i + 1]
+                    if isinstance(a, ast.Assign) and len(a.targets) == 1 and isinstance(a.targets[0], ast.Name) \
+                            and isinstance(b, ast.Return) and isinstance(b.value, ast.Name) and b.value.id == a.targets[0].id \
+                            and a.targets[0].id not in declared:
+                        new = ast.Return(value=a.value)
+                        ast.copy_location(new, a)
+                        block[i:i + 2] = [new]
+                    i += 1
+
+
 def normal_form(tree):
     _NormalForm().visit(tree)
+    _InlineReturn().visit(tree)
     ast.fix_missing_locations(tree)
